@@ -19,7 +19,12 @@ import (
 	"time"
 )
 
-const VerifDir = "/verif"
+var VerifDir = func() string {
+	if d := os.Getenv("VERIF_DIR"); d != "" {
+		return d
+	}
+	return "/verif"
+}()
 
 type Violation struct {
 	Sig      string          `json:"sig"`
